@@ -113,9 +113,10 @@ class TableEdge(BaseEdge):
     """no vertex (hence no gradient/Hessian contribution, so inf/nan do not leak into the solve):
     e = (1), Omega = (a_k) where k is the x coordinate of the mover  ->  chi2 = a_k"""
 
-    def __init__(self, table, probe):
+    def __init__(self, table, probe, x0=0.0):
         self._table = [float(t) for t in table]
         self._probe = probe
+        self._x0 = float(x0)
         super().__init__([], None, None)
 
     def is_valid(self):
@@ -129,7 +130,7 @@ class TableEdge(BaseEdge):
 
     @property
     def information(self):
-        k = int(round(float(self._probe.pose[0])))
+        k = int(round(float(self._probe.pose[0]) - self._x0))
         return np.array([[self._table[k]]])
 
     @information.setter
@@ -138,14 +139,18 @@ class TableEdge(BaseEdge):
 
 
 ANCHOR0 = (3.0, 4.0)
+X0S = (0.0, 2.0 ** 30)      # starting abscissa of the mover, alternating between the scripted tables
 
 
-def build_scripted(table):
+def build_scripted(table, x0=0.0):
+    """x0: where the mover starts (0 or 2^30: the report must not depend on how far from the origin the vertices are)"""
     anchor = Vertex(7, PoseR2([ANCHOR0[0], ANCHOR0[1]]))
-    mover = Vertex(9, PoseR2([0.0, 0.0]))
+    mover = Vertex(9, PoseR2([float(x0), 0.0]))
     edges = [PushEdge([9], np.eye(2), None), CancelEdge([], np.array([[-1.0]]), None),
-             HoldEdge([7], np.eye(2), None), TableEdge(table, mover)]
-    return Graph(edges, [anchor, mover])
+             HoldEdge([7], np.eye(2), None), TableEdge(table, mover, x0)]
+    g = Graph(edges, [anchor, mover])
+    g._verif_x0 = float(x0)
+    return g
 
 
 @contextlib.contextmanager
@@ -213,24 +218,25 @@ def scripted_outcome(graph, tol, max_iter, verbose, ffp):
     #   1: chi2 queried at another state, then the state put back (a cached chi2 would now be stale)
     #   2: an earlier optimizer call, then the state and the fixed flag put back
     hist = (max_iter + (1 if verbose else 0)) % 3
+    x0 = getattr(graph, '_verif_x0', 0.0)
     with quiet_numpy(), contextlib.redirect_stdout(io.StringIO()):
         if hist == 1:
-            g._vertices[1].pose = PoseR2([5.0, 0.0])
+            g._vertices[1].pose = PoseR2([x0 + 5.0, 0.0])
             g.calc_chi2()
-            g._vertices[1].pose = PoseR2([0.0, 0.0])
+            g._vertices[1].pose = PoseR2([x0, 0.0])
         elif hist == 2:
             try:
                 g.optimize(tol=0.0, max_iter=2, fix_first_pose=ffp, verbose=False)
             except Exception:  # noqa: BLE001
                 pass
-            g._vertices[1].pose = PoseR2([0.0, 0.0])
+            g._vertices[1].pose = PoseR2([x0, 0.0])
             g._vertices[0].pose = PoseR2([ANCHOR0[0], ANCHOR0[1]])
             g._vertices[0].fixed = False
     res, exc, out = call_optimize(g, tol, max_iter, verbose, ffp)
     d = dict(report_dict(res)) if res is not None else dict(EMPTY_REPORT)
     d['raised'] = exc
     a, m = g._vertices[0], g._vertices[1]
-    x = float(m.pose[0])
+    x = float(m.pose[0]) - x0
     d['updates'] = int(round(x)) if x == x and abs(x) < 1e6 else -1
     d['pos_ok'] = bool(x == d['updates'] and float(m.pose[1]) == 0.0 and float(a.pose[0]) == ANCHOR0[0] and float(a.pose[1]) == ANCHOR0[1])
     d['lines'] = number_lines(out)
@@ -241,8 +247,8 @@ def scripted_outcome(graph, tol, max_iter, verbose, ffp):
 
 
 def _scripted_task(args):
-    table, tol, ffp = args
-    graph = build_scripted(table)
+    table, tol, ffp, x0 = args
+    graph = build_scripted(table, x0)
     return [scripted_outcome(graph, tol, n, vb, ffp) for n in range(NMAX + 1) for vb in (True, False)]
 
 
@@ -427,11 +433,11 @@ def statement_failures(exp, got, keys=('raised', 'converged', 'num_iterations', 
 
 
 # ----------------------------------------------------------------------------- (1) scripted correspondence
-def run_scripted(seed, tier, extra_tables=None):
+def run_scripted(seed, tier, extra_tables=None, shapes=None, per_shape=None):
     rng = random.Random(seed)
-    per_shape = 2 if tier == 'quick' else 40
+    per_shape = per_shape or (2 if tier == 'quick' else 40)
     tables = []
-    for sh in SHAPES:
+    for sh in (shapes or SHAPES):
         for _ in range(per_shape):
             tables.append((sh, gen_table(rng, sh)))
     for t in (extra_tables or []):
@@ -440,7 +446,7 @@ def run_scripted(seed, tier, extra_tables=None):
     actual = []
     prescribed_exact = 0
     for sh, t in tables:
-        a = readback(build_scripted(t), TABLE_LEN)
+        a = readback(build_scripted(t, X0S[len(actual) % len(X0S)]), TABLE_LEN)
         prescribed_exact += sum(1 for x, y in zip(a, t) if bits(x) == bits(y))
         actual.append(a)
     # implementation runs, in worker processes, while Coq evaluates the model
@@ -448,7 +454,7 @@ def run_scripted(seed, tier, extra_tables=None):
     ctx = multiprocessing.get_context('fork')
     pool = ctx.Pool(16)
     try:
-        async_res = pool.map_async(_scripted_task, [(tables[ti][1], TOLS[li], ffp) for ti, li, ffp in tasks], chunksize=1)
+        async_res = pool.map_async(_scripted_task, [(tables[ti][1], TOLS[li], ffp, X0S[ti % len(X0S)]) for ti, li, ffp in tasks], chunksize=1)
         coq = vlib.coq_eval_files([('c12_tab_%03d' % ti, coq_source(actual[ti])) for ti in range(len(tables))], timeout=600)
         impl = async_res.get(timeout=3000)
     finally:
@@ -483,7 +489,7 @@ def run_scripted(seed, tier, extra_tables=None):
                         got = impl_by[(ti, li, ffp)][n * 2 + vi]
                         res['impl_runs'] += 1
                         case = {'table': [float(x).hex() for x in actual[ti]], 'shape': sh, 'tol': tol, 'max_iter': n,
-                                'verbose': vb, 'fix_first_pose': ffp}
+                                'verbose': vb, 'fix_first_pose': ffp, 'x0': X0S[ti % len(X0S)]}
                         diff = [k for k in CMP_KEYS if mo[k] != got[k]]
                         if not got['pos_ok']:
                             diff.append('vertex positions are not (k,0)/(anchor unchanged)')
@@ -782,7 +788,7 @@ def replay_real(p):
 
 def replay_scripted(p):
     table = [float.fromhex(h) for h in p['table']]
-    graph = build_scripted(table)
+    graph = build_scripted(table, p.get('x0', 0.0))
     actual = readback(graph, TABLE_LEN)
     got = scripted_outcome(graph, p['tol'], p['max_iter'], p['verbose'], p['fix_first_pose'])
     if p['max_iter'] == 0:
